@@ -40,6 +40,7 @@ CAT = {  # name -> (inputs, output, params with a signature default)
     "C": (["b"], "c", set()),
     "P": (["n", "s"], "m", set()),
     "Q": (["m"], "n", set()),
+    "S": (["c", "acc"], "acc", set()),
     "T": (["n"], "t", set()),
     "W": (["z", "v"], "w", {"v"}),
     "Z": (["c"], "z", set()),
